@@ -546,7 +546,10 @@ DB_TABLES = [
      'ghost': None},
     {'a': ('k', ['x', 'xx', ''], ['x', 'xx', '']),
      'b': ('k', ['x'], ['x']),
-     'ü': ('pä', ['y'], ['y', 'x'])},
+     'ü': ('pä', ['y'], ['y', 'x']),
+     # a secret with whitespace at its edges is a secret like any other: its digest is over exactly these bytes
+     # (and its stripped form is the secret of 'a' and 'b')
+     'pad': (' k\n', ['x'], ['x', 'y'])},
 ]
 
 
@@ -607,7 +610,7 @@ class Script:
             self.frames.append(('auth-ok', auth_frame(ident, dg)))
             return
         k = rng.choice(['wrong-secret', 'other-nonce', 'prefix', 'empty', '19', '21', 'other-ident', 'unknown', 'missing',
-                        'no-nonce', 'swapped'])
+                        'no-nonce', 'swapped'] + (['stripped'] * 4 if secret.strip() != secret else []))
         if k == 'wrong-secret':
             dg = digest(self.nonce, secret + 'x')
         elif k == 'other-nonce':
@@ -634,6 +637,8 @@ class Script:
             dg = hashlib.sha1(secret.encode()).digest()
         elif k == 'swapped':
             dg = hashlib.sha1(secret.encode() + self.nonce).digest()
+        elif k == 'stripped':
+            dg = digest(self.nonce, secret.strip())
         self.frames.append(('auth-' + k, auth_frame(ident, dg)))
 
     def add_op(self):
